@@ -258,3 +258,33 @@ package astnormalization
 //@   safety none
 //@   loop 0:
 //@     invariant true
+
+// ----------------------------------------------------------------------------------------------
+// C06, list coercion uses the types of the operation that declares the variable: the visitor reads
+// operationDefinitionRef in EnterVariableDefinition, which only EnterOperationDefinition sets - so whoever registers
+// the visitor for variable definitions registers it for operations as well (walker protocol: the enclosing
+// operation is entered before its variable definitions), and the lookup is made in that operation
+//@ func inputCoercionForList
+//@   ghost var g_op bool = false
+//@   ghost var g_var bool = false
+//@   at call Walker.RegisterEnterOperationVisitor: ghost g_op = true
+//@   at call Walker.RegisterVariableDefinitionVisitor: ghost g_var = true
+//@   ensures {the.visitor.is.told.which.operation.it.is.in} g_var ==> g_op
+//@   modifies *
+//@ func NewListInputCoercion
+//@   ghost var g_op bool = false
+//@   ghost var g_var bool = false
+//@   at call Walker.RegisterEnterOperationVisitor: ghost g_op = true
+//@   at call Walker.RegisterVariableDefinitionVisitor: ghost g_var = true
+//@   ensures {the.visitor.is.told.which.operation.it.is.in} g_var ==> g_op
+//@   modifies *
+//@ func inputCoercionForListVisitor.EnterOperationDefinition
+//@   requires i != nil
+//@   ensures {the.current.operation.is.recorded} i.operationDefinitionRef == ref
+//@   modifies i.operationDefinitionRef
+//@ func inputCoercionForListVisitor.EnterVariableDefinition
+//@   requires i != nil && i.Walker != nil && i.operation != nil && len(i.Walker.Ancestors) > 0
+//@   requires {walker.protocol.the.enclosing.operation.was.entered} i.operationDefinitionRef == i.Walker.Ancestors[len(i.Walker.Ancestors)-1].Ref
+//@   at call Document.VariableDefinitionByNameAndOperation: assert {types.come.from.the.operation.that.declares.the.variable} arg1 == i.Walker.Ancestors[len(i.Walker.Ancestors)-1].Ref
+//@   modifies *, count(*)
+//@   safety none
